@@ -224,6 +224,8 @@ structure CoreOps where
   asSlices : M (View × View) := CircBuf.asSlices
   remove : Nat → M (Option Elem) := CircBuf.remove
   makeContiguous : M View := CircBuf.makeContiguous
+  iterNew : M Iter := CircBuf.Iter.new
+  iterOverRange : Bound → Bound → M Iter := CircBuf.Iter.overRange
 
 def modelOps : CoreOps := {}
 
@@ -342,22 +344,22 @@ def runOp (o : CoreOps) (toks : List String) : M String := do
     bumpAll (f.slots ++ k.slots)
     pure s
   | ["iter", sc] => do
-    let it ← Iter.new
+    let it ← o.iterNew
     let r ← runIterScript false (scriptOf sc) it []
     pure (";".intercalate r)
   | ["iter_mut", sc] => do
-    let it ← Iter.new
+    let it ← o.iterNew
     let r ← runIterScript true (scriptOf sc) it []
     pure (";".intercalate r)
   | ["range", sb, eb, sc] => match parseBound sb, parseBound eb with
     | some sb, some eb => do
-      let it ← Iter.overRange sb eb
+      let it ← o.iterOverRange sb eb
       let r ← runIterScript false (scriptOf sc) it []
       pure (";".intercalate r)
     | _, _ => bad
   | ["range_mut", sb, eb, sc] => match parseBound sb, parseBound eb with
     | some sb, some eb => do
-      let it ← Iter.overRange sb eb
+      let it ← o.iterOverRange sb eb
       let r ← runIterScript true (scriptOf sc) it []
       pure (";".intercalate r)
     | _, _ => bad
